@@ -246,7 +246,14 @@ func (st *StateTransition) TransitionDb() (*core.ExecutionResult, error) {
 
 	// Set up the initial access list.
 	if rules.IsBerlin {
-		activePrecompiles := append(corevm.ActivePrecompiles(rules), st.evm.GetCustomPrecompiledContractsAddress()...)
+		activePrecompiles := corevm.ActivePrecompiles(rules)
+		for _, addr := range st.evm.GetCustomPrecompiledContractsAddress() {
+			if addr == (common.Address{}) {
+				// the zero address is never a custom precompiled contract, it must not be warmed up
+				continue
+			}
+			activePrecompiles = append(activePrecompiles, addr)
+		}
 		st.state.PrepareAccessList(msg.From(), msg.To(), activePrecompiles, msg.AccessList())
 	}
 	var (
